@@ -133,6 +133,9 @@ func runLive(c *core.Case) {
 		}
 	}
 	update(cfg)
+	for _, g := range cfg {
+		c.Logf("live initial: %s\n%s", g.key(), g.yaml())
+	}
 	go mgr.Run()
 	stopped := false
 	stop := func() {
@@ -159,6 +162,9 @@ func runLive(c *core.Case) {
 			before[g.key()] = hbCount(g)
 		}
 		update(ncfg)
+		for _, g := range ncfg {
+			c.Logf("live reload %d: %s v%d\n%s", v, g.key(), g.ver, g.yaml())
+		}
 		cfg = ncfg
 		cfgs = append(cfgs, cfg)
 		need := 3
@@ -238,6 +244,7 @@ func runLive(c *core.Case) {
 		}
 	}
 	nStaleRemoved := 0
+	exemptName := map[string]bool{} // rule name|t
 	for _, k := range order {
 		x := gvs[k]
 		if len(x.T) < 2 {
@@ -245,7 +252,11 @@ func runLive(c *core.Case) {
 		}
 		complete := x.T[:len(x.T)-1]
 		prev := make([]map[string]bool, len(x.g.rules)) // nil = unknown
-		for _, t := range complete {
+		for ti, t := range complete {
+			// first evaluation of a changed group: series of rule instances removed by the reload
+			// are still live while the rules run (they are marked stale at the end of this
+			// evaluation), so dependents are not compared there
+			firstAfterReload := ti == 0 && x.g.ver > 0
 			res := make([]recomputed, len(x.g.rules))
 			claimed := map[string]bool{}
 			for i, ru := range x.g.rules {
@@ -256,6 +267,20 @@ func runLive(c *core.Case) {
 					}
 				}
 			}
+			// a staleness marker may legitimately have won the timestamp against a value: another
+			// rule of the group lost that series in this evaluation (or, at the first evaluation
+			// of a changed group, a removed instance's series was cleaned up)
+			staleOK := map[string]bool{}
+			for i := range x.g.rules {
+				if res[i].fail != "" {
+					continue
+				}
+				for s := range prev[i] {
+					if _, still := res[i].out[s]; !still {
+						staleOK[s] = true
+					}
+				}
+			}
 			for i, ru := range x.g.rules {
 				if res[i].fail != "" {
 					c.Seen("failed_evaluations", res[i].fail)
@@ -263,10 +288,16 @@ func runLive(c *core.Case) {
 						if len(owners[s]) > 1 || claimed[s] {
 							continue
 						}
-						if got, ok := D[s][t]; ok {
+						if got, ok := D[s][t]; ok && !(isStale(got) && (staleOK[s] || firstAfterReload)) {
 							c.Violatef(kFailedStored, "live: group %s v%d rule %s (%s) failed at %d (%s) but series %s has sample %s at that time", x.g.key(), x.g.ver, ru.name, ru.expr, t, res[i].fail, s, got.ValKey())
 						}
 					}
+					continue
+				}
+				if firstAfterReload && ru.depOn != "" {
+					exemptName[fmt.Sprintf("%s|%d", ru.name, t)] = true
+					c.Count("rule_evals_exempt_after_reload", 1)
+					prev[i] = nil
 					continue
 				}
 				for s, exp := range res[i].out {
@@ -285,7 +316,9 @@ func runLive(c *core.Case) {
 							match = true
 						}
 					}
-					if !match {
+					if !match && isStale(got) && (staleOK[s] || firstAfterReload) {
+						c.Count("value_lost_to_staleness_marker_of_other_rule(accepted)", 1)
+					} else if !match {
 						kind := kValue
 						if ru.depOn != "" {
 							kind = kDepValue
@@ -302,8 +335,7 @@ func runLive(c *core.Case) {
 						if _, still := res[i].out[s]; still || claimed[s] || len(owners[s]) > 1 {
 							continue
 						}
-						got, ok := D[s][t]
-						if !ok || !isStale(got) {
+						if !staleAtOrBefore(D[s], t) {
 							c.Violatef(kStaleMissing, "live: group %s v%d rule %s (%s) at %d: series %s was produced by the previous evaluation, is not produced now, but has no staleness marker at this time (has: %v)", x.g.key(), x.g.ver, ru.name, ru.expr, t, s, sampleAt(D[s], t))
 						} else {
 							w.nStale++
@@ -327,7 +359,9 @@ func runLive(c *core.Case) {
 					match = true
 				}
 			}
-			if !match {
+			name := s[strings.Index(s, "\"")+1:]
+			name = name[:strings.Index(name, "\"")]
+			if !match && !exemptName[fmt.Sprintf("%s|%d", name, t)] {
 				c.Violatef(kUnexplained, "live: series %s has sample %s at %d which is not the result of any configured rule at one of its group's evaluation times", s, smp.ValKey(), t)
 			}
 		}
